@@ -1,0 +1,75 @@
+//go:build verif
+
+package graphicsstate
+
+// Contracts for gocv (comment-only; see /verif/DESIGN.md).  No executable code.
+// mtx/mty (package model): image of the point (x,y) under a matrix, row-vector convention of ISO 32000-1 8.3.4.
+
+//@ spec func sameTextExceptMatrices(a TextState, b TextState) bool = a.FontName == b.FontName && a.FontSize == b.FontSize && a.CharSpacing == b.CharSpacing && a.WordSpacing == b.WordSpacing && a.HorizontalScaling == b.HorizontalScaling && a.Leading == b.Leading && a.RenderingMode == b.RenderingMode && a.Rise == b.Rise
+//@ spec func sameGraphics(a GraphicsState, b GraphicsState) bool = a.CTM == b.CTM && a.LineWidth == b.LineWidth && a.StrokeColor == b.StrokeColor && a.FillColor == b.FillColor && a.stack == b.stack
+
+// cm: CTM' = m x CTM  (the operand is applied first, then the old CTM)
+//@ func (*GraphicsState) Transform
+//@   property C08
+//@   ensures cm: forall x real, y real :: mtx(gs.CTM, x, y) == mtx(old(gs.CTM), mtx(m, x, y), mty(m, x, y)) && mty(gs.CTM, x, y) == mty(old(gs.CTM), mtx(m, x, y), mty(m, x, y))
+//@   ensures frame: gs.Text == old(gs.Text) && gs.LineWidth == old(gs.LineWidth) && gs.StrokeColor == old(gs.StrokeColor) && gs.FillColor == old(gs.FillColor) && gs.stack == old(gs.stack)
+
+// Td: Tlm' = T(tx,ty) x Tlm ; Tm' = Tlm'
+//@ func (*GraphicsState) TranslateText
+//@   property C08
+//@   ensures td: forall x real, y real :: mtx(gs.Text.TextLineMatrix, x, y) == mtx(old(gs.Text.TextLineMatrix), x + tx, y + ty) && mty(gs.Text.TextLineMatrix, x, y) == mty(old(gs.Text.TextLineMatrix), x + tx, y + ty)
+//@   ensures tm_is_tlm: gs.Text.TextMatrix == gs.Text.TextLineMatrix
+//@   ensures frame: sameGraphics(gs, old(gs)) && sameTextExceptMatrices(gs.Text, old(gs.Text))
+
+// TD: leading := -ty, then Td
+//@ func (*GraphicsState) TranslateTextSetLeading
+//@   property C08
+//@   ensures td: forall x real, y real :: mtx(gs.Text.TextLineMatrix, x, y) == mtx(old(gs.Text.TextLineMatrix), x + tx, y + ty) && mty(gs.Text.TextLineMatrix, x, y) == mty(old(gs.Text.TextLineMatrix), x + tx, y + ty)
+//@   ensures tm_is_tlm: gs.Text.TextMatrix == gs.Text.TextLineMatrix
+//@   ensures leading: gs.Text.Leading == 0.0 - ty
+//@   ensures frame: sameGraphics(gs, old(gs)) && gs.Text.FontName == old(gs.Text.FontName) && gs.Text.FontSize == old(gs.Text.FontSize) && gs.Text.CharSpacing == old(gs.Text.CharSpacing) && gs.Text.WordSpacing == old(gs.Text.WordSpacing) && gs.Text.HorizontalScaling == old(gs.Text.HorizontalScaling) && gs.Text.Rise == old(gs.Text.Rise) && gs.Text.RenderingMode == old(gs.Text.RenderingMode)
+
+// T*: Td(0, -leading) relative to the line matrix
+//@ func (*GraphicsState) NextLine
+//@   property C08
+//@   ensures tstar: forall x real, y real :: mtx(gs.Text.TextLineMatrix, x, y) == mtx(old(gs.Text.TextLineMatrix), x, y - old(gs.Text.Leading)) && mty(gs.Text.TextLineMatrix, x, y) == mty(old(gs.Text.TextLineMatrix), x, y - old(gs.Text.Leading))
+//@   ensures tm_is_tlm: gs.Text.TextMatrix == gs.Text.TextLineMatrix
+//@   ensures frame: sameGraphics(gs, old(gs)) && sameTextExceptMatrices(gs.Text, old(gs.Text))
+
+// BT: both text matrices become the identity
+//@ func (*GraphicsState) BeginText
+//@   property C08
+//@   ensures bt: forall x real, y real :: mtx(gs.Text.TextMatrix, x, y) == x && mty(gs.Text.TextMatrix, x, y) == y
+//@   ensures tm_is_tlm: gs.Text.TextMatrix == gs.Text.TextLineMatrix
+//@   ensures frame: sameGraphics(gs, old(gs)) && sameTextExceptMatrices(gs.Text, old(gs.Text))
+
+// Tm: both text matrices become the operand
+//@ func (*GraphicsState) SetTextMatrix
+//@   property C08
+//@   ensures tm: gs.Text.TextMatrix == m && gs.Text.TextLineMatrix == m
+//@   ensures frame: sameGraphics(gs, old(gs)) && sameTextExceptMatrices(gs.Text, old(gs.Text))
+
+//@ func (*GraphicsState) SetLeading
+//@   property C08
+//@   ensures gs.Text.Leading == leading && sameGraphics(gs, old(gs)) && gs.Text.TextMatrix == old(gs.Text.TextMatrix) && gs.Text.TextLineMatrix == old(gs.Text.TextLineMatrix)
+//@   ensures gs.Text.FontName == old(gs.Text.FontName) && gs.Text.FontSize == old(gs.Text.FontSize) && gs.Text.CharSpacing == old(gs.Text.CharSpacing) && gs.Text.WordSpacing == old(gs.Text.WordSpacing) && gs.Text.HorizontalScaling == old(gs.Text.HorizontalScaling) && gs.Text.Rise == old(gs.Text.Rise) && gs.Text.RenderingMode == old(gs.Text.RenderingMode)
+
+// q: push a copy of everything Q restores
+//@ func (*GraphicsState) Save
+//@   property C08
+//@   ensures push: len(gs.stack) == len(old(gs.stack)) + 1 && (forall k int :: 0 <= k && k < len(old(gs.stack)) ==> gs.stack[k] == old(gs.stack)[k])
+//@   ensures saved: let top = gs.stack[len(old(gs.stack))] in top.CTM == old(gs.CTM) && top.Text == old(gs.Text) && top.LineWidth == old(gs.LineWidth) && top.StrokeColor == old(gs.StrokeColor) && top.FillColor == old(gs.FillColor)
+//@   ensures frame: gs.CTM == old(gs.CTM) && gs.Text == old(gs.Text) && gs.LineWidth == old(gs.LineWidth) && gs.StrokeColor == old(gs.StrokeColor) && gs.FillColor == old(gs.FillColor)
+
+// Q: restore exactly what q saved and pop one entry; underflow is an error that leaves the state unchanged
+//@ func (*GraphicsState) Restore results (err)
+//@   property C08
+//@   ensures underflow: len(old(gs.stack)) == 0 ==> err && gs == old(gs)
+//@   ensures pop: len(old(gs.stack)) > 0 ==> !err && len(gs.stack) == len(old(gs.stack)) - 1 && (forall k int :: 0 <= k && k < len(gs.stack) ==> gs.stack[k] == old(gs.stack)[k])
+//@   ensures restored: len(old(gs.stack)) > 0 ==> (let top = old(gs.stack)[len(old(gs.stack)) - 1] in gs.CTM == top.CTM && gs.Text == top.Text && gs.LineWidth == top.LineWidth && gs.StrokeColor == top.StrokeColor && gs.FillColor == top.FillColor)
+
+// text-space origin mapped through Tm and then the CTM (stated for zero text rise, as the property is)
+//@ func (*GraphicsState) GetTextPosition results (x, y)
+//@   property C08
+//@   ensures origin: gs.Text.Rise == 0.0 ==> x == mtx(gs.CTM, mtx(gs.Text.TextMatrix, 0.0, 0.0), mty(gs.Text.TextMatrix, 0.0, 0.0)) && y == mty(gs.CTM, mtx(gs.Text.TextMatrix, 0.0, 0.0), mty(gs.Text.TextMatrix, 0.0, 0.0))
+//@   ensures gs == old(gs)
